@@ -42,7 +42,8 @@ def bound(tier):
 
 
 def floors(tier):
-    return {"distinct_nontrivial": 200, "outcomes": 4, "states": 10, "count:k_divides_N": 20, "count:k_not_divides_N": 20}
+    return {"distinct_nontrivial": 200, "outcomes": 4, "states": 10, "count:k_divides_N": 20, "count:k_not_divides_N": 20,
+            "count:real_steps_with_retries": 10}
 
 
 def cases(tier, seed):
@@ -294,8 +295,8 @@ def _real_inputs(drive, thermal, k, T, probes=2):
     opts = tdgl.SolverOptions(
         solve_time=T,
         skip_time=0.0,
-        dt_init=0.08,
-        dt_max=0.5,
+        dt_init=(0.5 if drive == "field" else 1.0),
+        dt_max=2.0,
         adaptive=True,
         adaptive_window=2,
         max_solve_retries=12,
@@ -309,7 +310,7 @@ def _real_inputs(drive, thermal, k, T, probes=2):
         kw["applied_vector_potential"] = 1.6
     else:
         kw["terminal_currents"] = {"source": 14.0, "drain": -14.0}
-        kw["applied_vector_potential"] = 0.3
+        kw["applied_vector_potential"] = 1.0
     return opts, kw
 
 
@@ -331,8 +332,7 @@ def run_real(case):
     for d in dts:
         tt.append(tt[-1] + d)
     T = 0.5 * (tt[Nr - 1] + tt[Nr])
-    retries = sum(1 for d0, d1 in zip(dts[:-1], dts[1:]) if d1 < d0)
-    res.count("real_dt_decreases", retries)
+    res.count("real_steps_with_retries", sum(1 for r in ref.env_refusals["per_step"][:Nr] if r))
     opts, kw = _real_inputs(drive, thermal, k, T)
     if thermal:
         # thermalise for exactly `thermal` steps of the same dynamics: the main stage then starts
